@@ -51,7 +51,7 @@ def check_curve(ctx, params, grid, mean, kappa, et, inp):
     sy, T = sim.make_functions(params)
     Td = t_md(params, T)
     ob = "compute_recession_curve = model riseCurve at Float on the recorded quad values"
-    g = np.array(grid, dtype=float)
+    g = common.any_layout(ctx.rng, np.array(grid, dtype=float))
     with sim.record_quad() as calls:
         sim.dirty_heap(ctx.rng, len(g))
         t = [float(v) for v in srm.compute_recession_curve(sy, Td, g, mean, kappa, et)]
@@ -70,8 +70,22 @@ def check_curve(ctx, params, grid, mean, kappa, et, inp):
     wit = None
     n = len(grid)
 
+    # transmissivity for the oracle: NOT the implementation's object but the closed form proved in C15 (spline) or the
+    # formula of C16 (PEATCLSM), so that a defect of the transmissivity shows here as a broken water balance
+    trp = params["transmissivity"]
+    if trp["type"] == "spline":
+        from .c15 import closed_form_decimal
+        zk, kk, tmin_ = [float(v) for v in trp["zeta_knots_mm"]], [float(v) for v in trp["K_knots_km_d"]], float(trp["minimum_transmissivity_m2_d"])
+
+        def T_ref(z):
+            return closed_form_decimal(zk, kk, tmin_, float(z))
+    else:
+        def T_ref(z):
+            return float(trp["Ksmacz0"]) * (float(trp["zeta_max_cm"]) - float(z) / 10.0) ** (1.0 - float(trp["alpha"])) / (
+                100.0 * (float(trp["alpha"]) - 1.0)) * 86400.0
+
     def f(z):
-        return float(sy(z)) / (-et - kappa * float(Td(z)))
+        return float(sy(z)) / (-et - kappa * T_ref(z))
     for _ in range(2 if n >= 2 else 0):
         i, j = sorted(ctx.rng.sample(range(n), 2))
         direct = si.quad(f, grid[i], grid[j], limit=200)[0]
